@@ -13,6 +13,7 @@
 mod gen;
 mod sexp;
 mod tree;
+mod types;
 
 use crate::model::{hex, Model};
 use crate::report::{known_findings, Report, Violation};
@@ -27,6 +28,21 @@ use std::panic::{catch_unwind, AssertUnwindSafe};
 use tree::*;
 
 const KINDS: [&str; 2] = ["dense", "readable"];
+
+/// `should_break_with_space` TRUE entries of the real function OR of the Lean model (so an entry
+/// lost by either side is still exercised), filled by `table_correspondence`.
+static BREAK_TABLE_UNION: std::sync::OnceLock<Vec<bool>> = std::sync::OnceLock::new();
+
+fn break_table_union(a: char, b: char) -> bool {
+    let (a, b) = (a as usize, b as usize);
+    if a >= 128 || b >= 128 {
+        return false;
+    }
+    match BREAK_TABLE_UNION.get() {
+        Some(t) => t[a * 128 + b],
+        None => hooks::should_break_with_space(a as u8 as char, b as u8 as char),
+    }
+}
 
 // ------------------------------------------------------------------ real generator runs
 
@@ -99,6 +115,9 @@ struct Local {
     samples: Vec<Value>,
     f23_seen: Vec<String>,
     f26_seen: Vec<String>,
+    /// (last written char, first char of the next push) seen at `push_space_if_needed` in real
+    /// dense runs, restricted to pairs of the break table's TRUE entries
+    exercised: std::collections::BTreeSet<(u8, u8)>,
 }
 
 impl Local {
@@ -127,6 +146,36 @@ impl Local {
             report.sample(s);
         }
     }
+}
+
+/// The pairs (previous character, first character of the pushed content) on which the real
+/// dense run consulted `should_break_with_space`, read off the trace.
+fn consulted_pairs(ops: &[hooks::TraceOp]) -> Vec<(char, char)> {
+    let mut pairs = Vec::new();
+    let mut last: Option<char> = None;
+    let mut pending: Option<char> = None;
+    for op in ops {
+        match op.op {
+            "push_char" => pending = op.text.chars().next(),
+            "push_space_if_needed" => {
+                if let (Some(l), Some(c)) = (last, op.text.chars().next()) {
+                    pairs.push((l, c));
+                }
+                if let Some(c) = pending.take() {
+                    last = Some(c);
+                }
+            }
+            "raw_push_str" | "raw_push_char" | "merge_char" => {
+                if let Some(c) = op.text.chars().last() {
+                    last = Some(c);
+                }
+            }
+            "push_space" => last = Some(' '),
+            "push_new_line" => last = Some('\n'),
+            _ => {}
+        }
+    }
+    pairs
 }
 
 fn tree_input(family: &str, blk: &Blk, kind: &str, span: usize, text: &str) -> Value {
@@ -175,6 +224,13 @@ fn check_tree(model: &mut Model, family: &str, blk: &Blk, spans: &[usize], local
                 }
             };
             // (2) trace replay by the Lean writer model
+            if kind == "dense" {
+                for (l, c) in consulted_pairs(&run.ops) {
+                    if l.is_ascii() && c.is_ascii() && break_table_union(l, c) {
+                        local.exercised.insert((l as u8, c as u8));
+                    }
+                }
+            }
             {
                 let ops = &run.ops;
                 local.count("trace_ops_replayed", ops.len() as u64);
@@ -302,7 +358,7 @@ fn atom_ex(k: usize) -> Ex {
         6 => call(id("f"), vec![]),
         7 => Ex::Field(bx(id("t")), "x".into()),
         8 => Ex::Index(bx(id("t")), bx(num(1.0))),
-        9 => Ex::Func(Box::new(Func { params: vec![], variadic: false, body: Blk::default() })),
+        9 => Ex::Func(Box::new(Func { params: vec![], variadic: false, body: Blk::default(), sig: None })),
         10 => Ex::True,
         11 => Ex::Nil,
         _ => Ex::Varargs,
@@ -327,7 +383,7 @@ impl ME {
             ME::NegNum(_) => num(-1.0),
             ME::Paren(e) => paren(e.ex()),
             ME::IfExp(c, a, b) => Ex::IfExp(bx(c.ex()), bx(a.ex()), vec![], bx(b.ex())),
-            ME::Cast(e, t) => Ex::Cast(bx(e.ex()), TYPE_NAMES[*t % 3].to_owned()),
+            ME::Cast(e, t) => Ex::Cast(bx(e.ex()), types::tname(TYPE_NAMES[*t % 3])),
             ME::Un(op, e) => un(*op, e.ex()),
             ME::Bin(op, l, r) => bin(*op, l.ex(), r.ex()),
         }
@@ -506,9 +562,11 @@ fn table_correspondence(report: &mut Report, model: &mut Model) {
     }
     let answers = model.ask_batch(&lines);
     let mut k = 0;
+    let mut union = vec![false; 128 * 128];
     for a in 0..128u32 {
         for b in 0..128u32 {
             let real = hooks::should_break_with_space(char::from_u32(a).unwrap(), char::from_u32(b).unwrap());
+            union[(a * 128 + b) as usize] = real || answers[k] == "true";
             if real {
                 report.case(Some(("brk", a, b)));
             } else {
@@ -526,6 +584,7 @@ fn table_correspondence(report: &mut Report, model: &mut Model) {
             k += 1;
         }
     }
+    let _ = BREAK_TABLE_UNION.set(union);
     report.hist("table", "should_break_with_space 128x128");
     report.exhaustive.insert("should_break_with_space: all 128 x 128 ASCII pairs".into(), true);
     // ---- break_* predicates: all strings of length <= 2 over a relevant alphabet
@@ -648,7 +707,7 @@ fn spans_for(thorough: bool, rng: &mut Rng, full: bool) -> Vec<usize> {
 }
 
 pub fn run(report: &mut Report, replay: Option<&str>) {
-    report.rule = "trees: enumerated families (all operator pairs in both nestings, operator triples in all 5 shapes, unary chains, negative literals, numbers/dots/long strings adjacency, `;` insertion for every statement-ending x `(`-starting statement, every expression kind in every operand position) then random trees over every node kind; each tree x {dense, readable} x column spans. Non-trivial = the run performed more than 3 primitive writes (distinct trees counted); table cases count distinct decisions (break pairs only where the real answer is `true`).".into();
+    report.rule = "trees: adjacency family derived from the break table (for every TRUE entry of should_break_with_space, real or model, that the core grammar can juxtapose: statement pairs / keyword clauses / operator forms whose dense text puts the two characters at a push boundary; coverage counted from the traces), enumerated families (all operator pairs in both nestings, operator triples in all 5 shapes, unary chains, negative literals, numbers/dots/long strings adjacency, `;` insertion for every statement-ending x `(`-starting statement, every expression kind in every operand position) then random trees over every node kind; each tree x {dense, readable} x column spans. Non-trivial = the run performed more than 3 primitive writes (distinct trees counted); table cases count distinct decisions (break pairs only where the real answer is `true`).".into();
     let thorough = report.is_thorough();
     let mut rng = Rng::new(report.seed);
 
@@ -667,6 +726,34 @@ pub fn run(report: &mut Report, replay: Option<&str>) {
     for (family, blk) in enumerated(thorough, &mut rng) {
         let spans = spans_for(thorough, &mut rng, false);
         work.push((family.to_owned(), blk, spans));
+    }
+    for (family, blk) in type_family(&mut rng, thorough) {
+        let spans = spans_for(thorough, &mut rng, false);
+        work.push((family.to_owned(), blk, spans));
+    }
+    // adjacency family, derived from the break table itself: every TRUE entry (of the real table
+    // or of the model) that the core grammar can juxtapose gets at least one real output
+    let mut adjacency_has_witness: std::collections::BTreeSet<(u8, u8)> = Default::default();
+    let mut true_entries: Vec<(u8, u8)> = Vec::new();
+    for c1 in 0..128u8 {
+        for c2 in 0..128u8 {
+            if !break_table_union(c1 as char, c2 as char) {
+                continue;
+            }
+            true_entries.push((c1, c2));
+            let all_forms = thorough || ("09aZ_ednfx".contains(c1 as char) && "_aZe09G".contains(c2 as char));
+            let witnesses = adjacency_witnesses(c1 as char, c2 as char, c1 as usize + 3 * c2 as usize, all_forms);
+            if !witnesses.is_empty() {
+                adjacency_has_witness.insert((c1, c2));
+            }
+            for blk in witnesses {
+                let mut spans = vec![120, 0, 1 + rng.below(40)];
+                if thorough {
+                    spans.extend([1, 2, 5, 9, 14, 20]);
+                }
+                work.push(("adjacency".to_owned(), blk, spans));
+            }
+        }
     }
     let random_count = if thorough { 25_000 } else { 6_000 };
     let full_span_count = if thorough { 3_000 } else { 0 };
@@ -713,7 +800,16 @@ pub fn run(report: &mut Report, replay: Option<&str>) {
     });
     let mut f23_texts: Vec<String> = Vec::new();
     let mut f26_texts: Vec<String> = Vec::new();
+    let mut exercised: std::collections::BTreeSet<(u8, u8)> = Default::default();
+    // smallest failing inputs first (the report keeps a handful per check)
+    let mut locals = locals;
+    let mut all_violations: Vec<Violation> = locals.iter_mut().flat_map(|l| std::mem::take(&mut l.violations)).collect();
+    all_violations.sort_by_key(|v| v.input["tree"].as_str().map_or(0, |t| t.len()) + v.input["output"].as_str().map_or(0, |t| t.len()));
+    for v in all_violations {
+        report.violation(v);
+    }
     for local in locals {
+        exercised.extend(local.exercised.iter().cloned());
         f23_texts.extend(local.f23_seen.iter().cloned());
         f26_texts.extend(local.f26_seen.iter().cloned());
         local.merge_into(report);
@@ -726,6 +822,34 @@ pub fn run(report: &mut Report, replay: Option<&str>) {
             f23_texts.iter().take(3).collect::<Vec<_>>()
         ));
     }
+    // coverage of the break table by real dense outputs
+    let mut unreached: BTreeMap<&'static str, u64> = BTreeMap::new();
+    let mut witness_missed: Vec<String> = Vec::new();
+    for (c1, c2) in &true_entries {
+        if exercised.contains(&(*c1, *c2)) {
+            continue;
+        }
+        if adjacency_has_witness.contains(&(*c1, *c2)) {
+            witness_missed.push(format!("{:?}{:?}", *c1 as char, *c2 as char));
+        }
+        *unreached.entry(unreachable_reason(*c1 as char, *c2 as char)).or_default() += 1;
+    }
+    report.count("break_table_true_entries", true_entries.len() as u64);
+    report.count(
+        "break_table_true_entries_consulted_by_a_real_dense_run",
+        true_entries.iter().filter(|p| exercised.contains(p)).count() as u64,
+    );
+    report.count("break_table_true_entries_with_an_adjacency_witness", adjacency_has_witness.len() as u64);
+    for (reason, n) in &unreached {
+        report.notes.push(format!("break table: {} TRUE entries are never consulted by a real run — {}", n, reason));
+    }
+    if !witness_missed.is_empty() {
+        report.notes.push(format!(
+            "adjacency family: {} entries have a witness block that did not make the dense generator consult the pair: {}",
+            witness_missed.len(),
+            witness_missed.iter().take(20).cloned().collect::<Vec<_>>().join(" ")
+        ));
+    }
     f26_texts.sort_by_key(|t| t.len());
     f26_texts.dedup();
     if !f26_texts.is_empty() {
@@ -734,10 +858,8 @@ pub fn run(report: &mut Report, replay: Option<&str>) {
             f26_texts.iter().take(2).collect::<Vec<_>>()
         ));
     }
-    // a correspondence break next to an oracle failure: the oracle failure is the finding
-    if report.violations.iter().any(|v| v.kind == "oracle") {
-        report.violations.retain(|v| v.kind == "oracle");
-    }
+    // both kinds are reported (capped per check key by `Report::violation`): a correspondence
+    // break is deterministic evidence even when the oracle also found a failing input
 }
 
 fn corpus(report: &mut Report) {
